@@ -17,6 +17,7 @@ fn main() {
     let mut ctx = Ctx::new(prop, tier, seed, driver, load_known(known));
     match prop.as_str() {
         "C12" => props::c12::run(&mut ctx),
+        "C16" => props::c16::run(&mut ctx),
         _ => { eprintln!("unknown property {prop}"); std::process::exit(2); }
     }
     ctx.finish(out);
